@@ -136,8 +136,10 @@ Definition predict (p : prog) (c : cfg) (t : tree) (i : inj) : N * N :=
 (** injections addressed by the index of an observed step of the recording run *)
 (** [ORead i]: a NON-mutating call (open for reading, read, getdents, stat family) issued before the observed step i
     fails.  The model's oracle for it: the command aborts there - the outcome of [Fault] at the position of step i,
-    which executes nothing further and returns the error through the same handlers - or the error is
-    swallowed by the caller (Path::exists / is_dir / is_file answer false) and the run is the fault-free one. *)
+    which executes nothing further and returns the error through the same handlers; or the read sits outside the
+    handler that would swallow a fault of step i (e.g. validate_object_root before purge_object's logged
+    clean_dirs_up): the command returns an error with the tree as it is before step i; or the error is swallowed
+    by the caller (Path::exists / is_dir answer false) and the run is the fault-free one. *)
 Inductive oinj : Type := OFault (i : nat) | OKill (i : nat) | OKillAfter (i : nat) | OStop (i : nat) | ORead (i : nat).
 
 (** for a stop request: the outcomes of a stop at the aligned or any later position, and of no stop at all
@@ -156,7 +158,10 @@ Definition predict_obs (p : prog) (c : cfg) (t : tree) (obs : list ostep) (js : 
          | OKill i => match pos i with Some k => [predict_with p c t tnew (Kill k)] | None => [] end
          | OKillAfter i => match pos i with Some k => [predict_with p c t tnew (Kill (S k))] | None => [] end
          | OStop i => match pos i with Some k => base :: skipn k stops | None => [] end
-         | ORead i => match pos i with Some k => [predict_with p c t tnew (Fault k); base] | None => [base] end
+         | ORead i => match pos i with
+                      | Some k => [predict_with p c t tnew (Fault k); base; (fst (predict_with p c t tnew (Kill k)), 1)]
+                      | None => [base]
+                      end
          end) js.
 
 (** known-finding classes at observed steps *)
